@@ -13,7 +13,10 @@ package oidc
 // ---------------------------------------------------------------------------------------------
 
 //@ interface SessionStore method GetTokenResponse(self, ctx, sessionID) (t, err)
-//@   modifies ghost View
+//@   modifies ghost View, ghost Clk
+//@   ensures  clock: Clk >= old(Clk)
+//@   ensures  timeout: t != nil ==> !TimedOut(old(View)[self.pay][sessionID], old(Clk), StoreAbs(self), StoreIdle(self))
+//@   ensures  kept_inside: t == nil && err == nil && old(View)[self.pay][sessionID].present && old(View)[self.pay][sessionID].hasTok ==> !InsideLimits(old(View)[self.pay][sessionID], Clk, StoreAbs(self), StoreIdle(self)) || !View[self.pay][sessionID].present
 //@   ensures  frame: OnlySid(old(View), View, self.pay, sessionID)
 //@   ensures  frame_pw: OnlySidPW(old(View), View, self.pay, sessionID)
 //@   derived  frame by L-onlysid-ext
@@ -23,7 +26,10 @@ package oidc
 //@   ensures  after: Touched(old(View)[self.pay][sessionID], View[self.pay][sessionID]) || !View[self.pay][sessionID].present
 
 //@ interface SessionStore method GetAuthorizationState(self, ctx, sessionID) (a, err)
-//@   modifies ghost View
+//@   modifies ghost View, ghost Clk
+//@   ensures  clock: Clk >= old(Clk)
+//@   ensures  timeout: a != nil ==> !TimedOut(old(View)[self.pay][sessionID], old(Clk), StoreAbs(self), StoreIdle(self))
+//@   ensures  kept_inside: a == nil && err == nil && old(View)[self.pay][sessionID].present && old(View)[self.pay][sessionID].hasAuth ==> !InsideLimits(old(View)[self.pay][sessionID], Clk, StoreAbs(self), StoreIdle(self)) || !View[self.pay][sessionID].present
 //@   ensures  frame: OnlySid(old(View), View, self.pay, sessionID)
 //@   ensures  frame_pw: OnlySidPW(old(View), View, self.pay, sessionID)
 //@   derived  frame by L-onlysid-ext
@@ -34,33 +40,37 @@ package oidc
 
 //@ interface SessionStore method SetTokenResponse(self, ctx, sessionID, tokenResponse) err
 //@   requires tok_nonnil: tokenResponse != nil
-//@   modifies ghost View
+//@   modifies ghost View, ghost Clk
+//@   ensures  clock: Clk >= old(Clk)
 //@   ensures  frame: OnlySid(old(View), View, self.pay, sessionID)
 //@   ensures  frame_pw: OnlySidPW(old(View), View, self.pay, sessionID)
 //@   derived  frame by L-onlysid-ext
-//@   ensures  ok: err == nil ==> SetTokPost(old(View)[self.pay][sessionID], View[self.pay][sessionID], TokOf(tokenResponse))
-//@   ensures  fail: err != nil ==> View[self.pay][sessionID] == old(View)[self.pay][sessionID] || !View[self.pay][sessionID].present || SetTokPost(old(View)[self.pay][sessionID], View[self.pay][sessionID], TokOf(tokenResponse))
+//@   ensures  ok: err == nil ==> SetTokPost(old(View)[self.pay][sessionID], View[self.pay][sessionID], TokOf(tokenResponse)) || (Expirable(old(View)[self.pay][sessionID], Clk, StoreAbs(self), StoreIdle(self)) && SetTokPost(AbsentSession(), View[self.pay][sessionID], TokOf(tokenResponse)))
+//@   ensures  fail: err != nil ==> View[self.pay][sessionID] == old(View)[self.pay][sessionID] || !View[self.pay][sessionID].present || SetTokPost(old(View)[self.pay][sessionID], View[self.pay][sessionID], TokOf(tokenResponse)) || (Expirable(old(View)[self.pay][sessionID], Clk, StoreAbs(self), StoreIdle(self)) && SetTokPost(AbsentSession(), View[self.pay][sessionID], TokOf(tokenResponse)))
 
 //@ interface SessionStore method SetAuthorizationState(self, ctx, sessionID, authorizationState) err
 //@   requires auth_nonnil: authorizationState != nil
-//@   modifies ghost View
+//@   modifies ghost View, ghost Clk
+//@   ensures  clock: Clk >= old(Clk)
 //@   ensures  frame: OnlySid(old(View), View, self.pay, sessionID)
 //@   ensures  frame_pw: OnlySidPW(old(View), View, self.pay, sessionID)
 //@   derived  frame by L-onlysid-ext
-//@   ensures  ok: err == nil ==> SetAuthPost(old(View)[self.pay][sessionID], View[self.pay][sessionID], AuthOf(authorizationState))
-//@   ensures  fail: err != nil ==> View[self.pay][sessionID] == old(View)[self.pay][sessionID] || !View[self.pay][sessionID].present || SetAuthPost(old(View)[self.pay][sessionID], View[self.pay][sessionID], AuthOf(authorizationState))
+//@   ensures  ok: err == nil ==> SetAuthPost(old(View)[self.pay][sessionID], View[self.pay][sessionID], AuthOf(authorizationState)) || (Expirable(old(View)[self.pay][sessionID], Clk, StoreAbs(self), StoreIdle(self)) && SetAuthPost(AbsentSession(), View[self.pay][sessionID], AuthOf(authorizationState)))
+//@   ensures  fail: err != nil ==> View[self.pay][sessionID] == old(View)[self.pay][sessionID] || !View[self.pay][sessionID].present || SetAuthPost(old(View)[self.pay][sessionID], View[self.pay][sessionID], AuthOf(authorizationState)) || (Expirable(old(View)[self.pay][sessionID], Clk, StoreAbs(self), StoreIdle(self)) && SetAuthPost(AbsentSession(), View[self.pay][sessionID], AuthOf(authorizationState)))
 
 //@ interface SessionStore method ClearAuthorizationState(self, ctx, sessionID) err
-//@   modifies ghost View
+//@   modifies ghost View, ghost Clk
+//@   ensures  clock: Clk >= old(Clk)
 //@   ensures  frame: OnlySid(old(View), View, self.pay, sessionID)
 //@   ensures  frame_pw: OnlySidPW(old(View), View, self.pay, sessionID)
 //@   derived  frame by L-onlysid-ext
 //@   ensures  absent: !old(View)[self.pay][sessionID].present ==> !View[self.pay][sessionID].present
-//@   ensures  ok: err == nil && old(View)[self.pay][sessionID].present ==> ClearPost(old(View)[self.pay][sessionID], View[self.pay][sessionID])
+//@   ensures  ok: err == nil && old(View)[self.pay][sessionID].present ==> ClearPost(old(View)[self.pay][sessionID], View[self.pay][sessionID]) || (Expirable(old(View)[self.pay][sessionID], Clk, StoreAbs(self), StoreIdle(self)) && !View[self.pay][sessionID].present)
 //@   ensures  fail: err != nil ==> View[self.pay][sessionID] == old(View)[self.pay][sessionID] || !View[self.pay][sessionID].present || ClearPost(old(View)[self.pay][sessionID], View[self.pay][sessionID])
 
 //@ interface SessionStore method RemoveSession(self, ctx, sessionID) err
-//@   modifies ghost View
+//@   modifies ghost View, ghost Clk
+//@   ensures  clock: Clk >= old(Clk)
 //@   ensures  frame: OnlySid(old(View), View, self.pay, sessionID)
 //@   ensures  frame_pw: OnlySidPW(old(View), View, self.pay, sessionID)
 //@   derived  frame by L-onlysid-ext
